@@ -77,6 +77,16 @@ class InterpolatedValue:
         self.report = report
 
 
+def describe_value(value, convert):
+    """ The text of a student's value: their own ``__repr__`` or ``__str__``
+    may fail, and the assertion still has to be reported. """
+    try:
+        return convert(value)
+    except Exception as error:
+        return (f"<{type(unwrap_value(value)).__name__} object; "
+                f"its {convert.__name__} raised {type(error).__name__}>")
+
+
 class ExactValue(InterpolatedValue):
     """ Wrapper around literal values to produce them unmodified. """
 
@@ -88,7 +98,7 @@ class SandboxedValue(InterpolatedValue):
     """ Wrapper around sandboxed values to preformat their text. """
 
     def __str__(self):
-        return ":\n"+self.report.format.python_value(repr(self.value))
+        return ":\n"+self.report.format.python_value(describe_value(self.value, repr))
 
 
 class AssertionBreak(Exception):
@@ -250,9 +260,9 @@ class RuntimeAssertionFeedback(AssertionFeedback):
         # Handle the number of contexts
         elif not contexts:
             # TODO: Check if this is working correctly; might be wrapping in output weirdly
-            assertion = self.report.format.output(f"{left.value} "
+            assertion = self.report.format.output(f"{describe_value(left.value, str)} "
                                                   f"{self._inverse_operator} "
-                                                  f"{right.value}")
+                                                  f"{describe_value(right.value, str)}")
         elif len(contexts) == 1:
             # If the expected_verb is a tuple, the right side's value is used
             #   to determine which of the two possible messages should be used.
